@@ -70,6 +70,10 @@ def replay_finding(pid, finding, build, env):
             return ("reproduced" if ok else "not-reproduced"), path, r.get("detail", "")
         # statement-level / library-level binding candidates: model-level replay
         kind = "model"
+    if kind == "none":
+        # findings observed on a concrete (shadow-valued) run of the real code over the stand-in: the shadow assignment is
+        # the counterexample; same evidential level as a natively re-checked solver model
+        kind = "model"
     if kind == "model":
         path = artifact(pid, finding, {"kind": "model", "note": "solver model re-evaluated natively (exact F_q) by the engine before reporting",
                                        "model": finding.get("model")})
